@@ -38,14 +38,24 @@ pub fn model_status(code: u8) -> RadialStatus {
 fn moment_of(m: &Msg31, slot: usize) -> Option<MomentData> {
     m.blocks.iter().find(|b| b.slot() == slot).and_then(|b| match b {
         Block::Mom(Moment {
-            scale, offset, data, ..
-        }) => Some(MomentData::from_fixed_point(*scale, *offset, data.clone())),
+            scale,
+            offset,
+            data,
+            word,
+            ..
+        }) => Some(MomentData::from_fixed_point_words(
+            *word,
+            *scale,
+            *offset,
+            data.clone(),
+        )),
         _ => None,
     })
 }
 
 /// What the model radial of this message must be, built with the model's public constructors
-/// from the very bytes written (16-bit moments stay raw bytes here; C07 owns their values).
+/// from the very bytes written (C07 owns the gate *values*; here moments are compared as the
+/// model's own equality sees them).
 pub fn expected_radial(m: &Msg31) -> Radial {
     Radial::new(
         cal::icd_epoch_ms(m.hdr.date, m.hdr.time as u64),
